@@ -43,6 +43,7 @@ type ScalarDom struct {
 	RL      *poly.Ring // mod l
 	RZ      *poly.Ring // integers (bytes)
 	Globals map[string]Val
+	ReducedBytes [][]Val // byte arrays isReduced has accepted on this path
 	Reduced map[*Object]bool // byte arrays on which isReduced returned true
 	Obls    []string
 	Calls   []string // primitive calls in order
@@ -297,7 +298,7 @@ func (d *ScalarDom) Call(in *Interp, site ssa.Instruction, fn *ssa.Function, arg
 			}
 			bound.Lsh(bound, 8).Add(bound, big.NewInt(bmax))
 		}
-		okPre := bound.Cmp(L25519) < 0 || d.Reduced[ptr.Obj]
+		okPre := bound.Cmp(L25519) < 0 || d.Reduced[ptr.Obj] || d.sameAsReduced(arr.Elems)
 		d.Obls = append(d.Obls, fmt.Sprintf("fiatScalarFromBytes precondition eval < l at %s: input ≤ %d bits%s: %v", in.Pos(site), bound.BitLen(), map[bool]string{true: " (guarded by isReduced)", false: ""}[d.Reduced[ptr.Obj]], okPre))
 		if !okPre {
 			in.Undecided(site, "fiatScalarFromBytes is applied to a value that may be ≥ l (up to %d bits, not guarded by isReduced): its precondition fails and the result is unspecified", bound.BitLen())
@@ -331,6 +332,10 @@ func (d *ScalarDom) Call(in *Interp, site ssa.Instruction, fn *ssa.Function, arg
 		}
 		if in.Choose("isReduced(x)") {
 			d.Reduced[s.Obj] = true
+			// what is known to be < l is the VALUE: remember the bytes, so that a copy of them is known to be too
+			if a, ok := s.Obj.Val.(*Agg); ok && len(a.Elems) >= 32 {
+				d.ReducedBytes = append(d.ReducedBytes, append([]Val{}, a.Elems[:32]...))
+			}
 			return []Val{Bool{true}}, true
 		}
 		return []Val{Bool{false}}, true
@@ -338,4 +343,28 @@ func (d *ScalarDom) Call(in *Interp, site ssa.Instruction, fn *ssa.Function, arg
 		in.Undecided(site, "%s has no meaning in the ring-expression domain", name)
 	}
 	return nil, false
+}
+
+// sameAsReduced: the 32 bytes are, bit for bit, bytes that isReduced has accepted on this path.
+func (d *ScalarDom) sameAsReduced(bs []Val) bool {
+	for _, ref := range d.ReducedBytes {
+		same := len(bs) == 32
+		for i := 0; same && i < 32; i++ {
+			x, okx := d.byteBits(bs[i])
+			y, oky := d.byteBits(ref[i])
+			if !okx || !oky {
+				same = false
+				break
+			}
+			for j := 0; j < 8; j++ {
+				if !x.Bits[j].Equal(y.Bits[j]) {
+					same = false
+				}
+			}
+		}
+		if same {
+			return true
+		}
+	}
+	return false
 }
